@@ -4,6 +4,7 @@ package c17
 
 import (
 	"encoding/json"
+	"errors"
 	"fmt"
 	"os"
 	"reflect"
@@ -34,12 +35,14 @@ func (d nopDialector) Initialize(db *gorm.DB) error {
 	}
 	return nil
 }
-func (nopDialector) Migrator(*gorm.DB) gorm.Migrator                         { return nil }
-func (nopDialector) DataTypeOf(*schema.Field) string                         { return "" }
-func (nopDialector) DefaultValueOf(*schema.Field) clause.Expression          { return clause.Expr{SQL: "DEFAULT"} }
+func (nopDialector) Migrator(*gorm.DB) gorm.Migrator { return nil }
+func (nopDialector) DataTypeOf(*schema.Field) string { return "" }
+func (nopDialector) DefaultValueOf(*schema.Field) clause.Expression {
+	return clause.Expr{SQL: "DEFAULT"}
+}
 func (nopDialector) BindVarTo(w clause.Writer, _ *gorm.Statement, _ interface{}) { w.WriteByte('?') }
-func (nopDialector) QuoteTo(w clause.Writer, s string)                       { w.WriteString(s) }
-func (nopDialector) Explain(sql string, _ ...interface{}) string             { return sql }
+func (nopDialector) QuoteTo(w clause.Writer, s string)                           { w.WriteString(s) }
+func (nopDialector) Explain(sql string, _ ...interface{}) string                 { return sql }
 
 // ---- pipelines and their built-in callbacks -------------------------------------------------
 
@@ -96,12 +99,15 @@ type Op struct {
 	Name   string `json:"name"`
 	Before string `json:"before,omitempty"`
 	After  string `json:"after,omitempty"`
+	// Match: "" = plain, "t" / "f" = the registration goes through Match(pred) with a predicate
+	// that is true / false for this database (how gorm registers its own transaction callbacks)
+	Match string `json:"match,omitempty"`
 }
 
 func (o Op) String() string {
 	switch o.Kind {
 	case "register":
-		s := ""
+		s := o.matchString()
 		if o.Before != "" {
 			s += "Before(" + o.Before + ")."
 		}
@@ -110,9 +116,19 @@ func (o Op) String() string {
 		}
 		return s + "Register(" + o.Name + ")"
 	case "replace":
-		return "Replace(" + o.Name + ")"
+		return o.matchString() + "Replace(" + o.Name + ")"
 	}
 	return "Remove(" + o.Name + ")"
+}
+
+func (o Op) matchString() string {
+	switch o.Match {
+	case "t":
+		return "Match(true)."
+	case "f":
+		return "Match(false)."
+	}
+	return ""
 }
 
 type Case struct {
@@ -139,9 +155,12 @@ type fired struct {
 // executes the pipeline after every successful step. It returns, per step,
 // either the error of the call or the fired list.
 type stepResult struct {
-	err   error
-	fired []fired
+	err      error
+	fired    []fired
+	firedErr []fired // fired list of the run whose statement carried an error from the start
 }
+
+var errPre = errors.New("error set before the pipeline ran")
 
 func apply(c Case) []stepResult {
 	db, err := gorm.Open(nopDialector{}, &gorm.Config{Logger: logger.Discard, DisableAutomaticPing: true})
@@ -177,23 +196,34 @@ func apply(c Case) []stepResult {
 			versions[o.Name]++
 			h := stub(o.Name, versions[o.Name])
 			switch {
-			case o.Before == "" && o.After == "":
+			case o.Before == "" && o.After == "" && o.Match == "":
 				e = proc.Register(o.Name, h)
 			default:
-				var cb reflect.Value
+				cb := pv // the builder: Match(..) first, like gorm's own registrations, then Before/After
+				if o.Match != "" {
+					want := o.Match == "t"
+					cb = cb.MethodByName("Match").Call([]reflect.Value{reflect.ValueOf(func(*gorm.DB) bool { return want })})[0]
+				}
 				if o.Before != "" {
-					cb = pv.MethodByName("Before").Call([]reflect.Value{reflect.ValueOf(o.Before)})[0]
-					if o.After != "" {
-						cb = cb.MethodByName("After").Call([]reflect.Value{reflect.ValueOf(o.After)})[0]
-					}
-				} else {
-					cb = pv.MethodByName("After").Call([]reflect.Value{reflect.ValueOf(o.After)})[0]
+					cb = cb.MethodByName("Before").Call([]reflect.Value{reflect.ValueOf(o.Before)})[0]
+				}
+				if o.After != "" {
+					cb = cb.MethodByName("After").Call([]reflect.Value{reflect.ValueOf(o.After)})[0]
 				}
 				e = callRegister(cb, o.Name, h)
 			}
 		case "replace":
 			versions[o.Name]++
-			e = proc.Replace(o.Name, stub(o.Name, versions[o.Name]))
+			if o.Match == "" {
+				e = proc.Replace(o.Name, stub(o.Name, versions[o.Name]))
+			} else {
+				want := o.Match == "t"
+				cb := pv.MethodByName("Match").Call([]reflect.Value{reflect.ValueOf(func(*gorm.DB) bool { return want })})[0]
+				r := cb.MethodByName("Replace").Call([]reflect.Value{reflect.ValueOf(o.Name), reflect.ValueOf(stub(o.Name, versions[o.Name]))})[0]
+				if !r.IsNil() {
+					e = r.Interface().(error)
+				}
+			}
 		case "remove":
 			e = proc.Remove(o.Name)
 		}
@@ -203,7 +233,16 @@ func apply(c Case) []stepResult {
 		}
 		log = nil
 		proc.Execute(db.Session(&gorm.Session{NewDB: true}).Table("t"))
-		out = append(out, stepResult{fired: append([]fired(nil), log...)})
+		sr := stepResult{fired: append([]fired(nil), log...)}
+		// the same pipeline run for a statement that already carries an error when it starts (a
+		// Scopes function or the caller called AddError): gorm's built-ins look at db.Error one by
+		// one, the processor itself runs every callback (error handlers and tracers rely on it)
+		log = nil
+		pre := db.Session(&gorm.Session{NewDB: true}).Table("t")
+		_ = pre.AddError(errPre)
+		proc.Execute(pre)
+		sr.firedErr = append([]fired(nil), log...)
+		out = append(out, sr)
 	}
 	return out
 }
@@ -243,6 +282,12 @@ func newModel(pipeline string) *model {
 }
 
 func (m *model) step(o Op) {
+	if o.Match == "f" && o.Kind != "remove" {
+		// a registration whose Match predicate is false for this database is not in effect: the
+		// pipeline stays what it was (only the handler numbering of the harness moves on)
+		m.gen[o.Name]++
+		return
+	}
 	switch o.Kind {
 	case "register":
 		m.gen[o.Name]++
@@ -416,6 +461,9 @@ func checkCase(c Case) string {
 		if err := m.check(r.fired); err != nil {
 			return fmt.Sprintf("after step %d (%s): %v; fired order: %s", i+1, c.Ops[i], err, names(r.fired))
 		}
+		if fmt.Sprint(r.fired) != fmt.Sprint(r.firedErr) {
+			return fmt.Sprintf("after step %d (%s): run for a statement that already carries an error fired %s, the ordinary run fired %s: not every registered callback ran exactly once", i+1, c.Ops[i], names(r.firedErr), names(r.fired))
+		}
 	}
 	// Replace takes the replaced callback's position: the final order must be
 	// the order of the same history without its Replace calls.
@@ -476,6 +524,9 @@ func classes(c Case, errored bool) []string {
 			if o.Before == "*" || o.After == "*" {
 				seen["op:star"] = true
 			}
+		}
+		if o.Match != "" {
+			seen["op:match-"+o.Match] = true
 		}
 		seen["op:"+k] = true
 	}
@@ -688,6 +739,8 @@ func nextOps(m *model, nCustom int, reducedCombos bool) []Op {
 	red := anchors(m.pipeline, reducedCombos)
 	for _, n := range regNames {
 		ops = append(ops, Op{Kind: "register", Name: n})
+		ops = append(ops, Op{Kind: "register", Name: n, Match: "t"}, Op{Kind: "register", Name: n, Match: "f"},
+			Op{Kind: "register", Name: n, Match: "t", After: red[0]}, Op{Kind: "register", Name: n, Match: "f", Before: red[len(red)-3]})
 		for _, x := range full {
 			if x == n {
 				continue
@@ -722,16 +775,17 @@ func nextOps(m *model, nCustom int, reducedCombos bool) []Op {
 		if r := m.live[n]; (r.before == "*" || r.after == "*") && harness.OpenClass("C17", "replace-star") {
 			continue // same root as the listed finding: '*' entries are reordered behind the newer entry of the name
 		}
-		ops = append(ops, Op{Kind: "register", Name: n})
+		ops = append(ops, Op{Kind: "register", Name: n}, Op{Kind: "register", Name: n, Match: "f"})
 	}
 	for _, n := range liveNames {
+		ops = append(ops, Op{Kind: "replace", Name: n, Match: "f"}) // not in effect: the live callback keeps running
 		if r := m.live[n]; (r.before == "*" || r.after == "*") && harness.OpenClass("C17", "replace-star") {
 			// listed finding: Replace of a callback registered with '*'
 			evid.Excluded("replace-star")
 			ops = append(ops, Op{Kind: "remove", Name: n})
 			continue
 		}
-		ops = append(ops, Op{Kind: "replace", Name: n}, Op{Kind: "remove", Name: n})
+		ops = append(ops, Op{Kind: "replace", Name: n}, Op{Kind: "replace", Name: n, Match: "t"}, Op{Kind: "remove", Name: n})
 	}
 	return ops
 }
